@@ -737,6 +737,51 @@ def run_absent(ctx):
                                  True)
 
 
+# -- truth assignments applied one after the other to one model ------------------
+# "For all truth assignments to the referenced cells": the referenced cell may
+# be a formula two cells away from the input that a history changes, and the
+# model and evaluator the same for the whole history.
+SEQ_FORMS = (
+    ('if', '=IF(B1,"then","else")', lambda t: 'text:then' if t
+     else 'text:else'),
+    ('if-poison', '=IF(B1,1,1/0)', lambda t: 'num:1.0' if t
+     else 'err:#DIV/0!'),
+    ('and', '=AND(B1,E1)', lambda t: 'bool:%s' % t),
+    ('or', '=OR(B1,F1)', lambda t: 'bool:%s' % t),
+    ('not', '=NOT(B1)', lambda t: 'bool:%s' % (not t)),
+    ('if-nested', '=IF(NOT(B1),IF(B1,1,2),IF(B1,3,4))', lambda t: 'num:3.0'
+     if t else 'num:2.0'),
+)
+SEQ_VALUES = (5, -5, 0)
+
+
+def run_seq(ctx):
+    import itertools as it
+    for fname, text, want in SEQ_FORMS:
+        for seq in it.product(SEQ_VALUES, repeat=3):
+            for how in ('evaluator', 'model'):
+                model = lib.compile_dict({
+                    AT: text, SHEET + 'D1': 1, SHEET + 'C1': '=D1>0',
+                    SHEET + 'B1': '=C1', SHEET + 'E1': True,
+                    SHEET + 'F1': False})
+                ev = lib.Evaluator(model)
+                setter = ev.set_cell_value if how == 'evaluator' \
+                    else model.set_cell_value
+                lib.observe(ev.evaluate, AT)
+                for k, v in enumerate(seq):
+                    lib.observe(setter, SHEET + 'D1', v)
+                    got = lib.observe(ev.evaluate, AT)
+                    key = 'C10/SEQ/%s/D1=%s/step=%d/%s' % (
+                        fname, ','.join(map(str, seq)), k, how)
+                    ctx.check(key, got, want(v > 0),
+                              ['family:assignments-in-sequence',
+                               'fn:' + fname, 'set:' + how],
+                              {'kind': 'seq'}, True,
+                              note='one model and evaluator; %s with B1 = C1 '
+                              '= D1>0' % text)
+                lib.clear_caches()
+
+
 # -- the first call of a function in a process --------------------------------
 # Laziness must not depend on how many arguments the FIRST call of IF / AND /
 # OR in the process happened to have.  Each sequence runs in a fresh
@@ -823,6 +868,7 @@ def plan(tier):
         shards.append({'fam': 'FLIP', 'tier': tier, 'poison': pname})
     shards.append({'fam': 'FIRST', 'weight': 5})
     shards.append({'fam': 'ABSENT'})
+    shards.append({'fam': 'SEQ'})
     ncall = len(call_cases(tier))
     for lo in range(0, ncall, 500):
         shards.append({'fam': 'CALL', 'tier': tier, 'lo': lo,
@@ -945,6 +991,11 @@ def run_shard(shard, ctx):
         name, args, env = forms[shard['lo']]
         ctx.sample({'family': 'ANDOR', 'formula': '=' + lazy.render(
             ('and', [S(i, a) for i, a in enumerate(args)])), 'cells': env})
+    elif fam == 'SEQ':
+        run_seq(ctx)
+        ctx.sample({'family': 'SEQ', 'cells': {
+            'Z1': '=IF(B1,"then","else")', 'B1': '=C1', 'C1': '=D1>0'},
+            'history': 'D1 := 5, evaluate; D1 := -5, evaluate; ...'})
     elif fam == 'ABSENT':
         run_absent(ctx)
         ctx.sample({'family': 'ABSENT', 'cells': {'Z1': '=AND(A1,B1)'},
@@ -1011,6 +1062,8 @@ def replay(inputs, ctx):
                     inputs['spied'], inputs['tags'], ctx)
     elif kind == 'absent':
         run_absent(ctx)
+    elif kind == 'seq':
+        run_seq(ctx)
     elif kind == 'firstcall':
         run_firstcall(ctx)
     elif kind == 'flip':
